@@ -304,7 +304,14 @@ func (w *Witness) Update(pk *gabikeys.PublicKey, update *Update) error {
 	defer verifTraceUpdate(w, update)()
 
 	newAcc, err := update.Verify(pk)
-	ourAcc := w.SignedAccumulator.Accumulator
+	if err != nil {
+		return err
+	}
+	// (a witness that was read from storage has not unmarshaled its accumulator yet)
+	if w.SignedAccumulator == nil {
+		return errors.New("witness has no accumulator")
+	}
+	ourAcc, err := w.SignedAccumulator.UnmarshalVerify(pk)
 	if err != nil {
 		return err
 	}
